@@ -25,6 +25,11 @@ fn main() {
             eprintln!("panic: {info}");
         }
     }));
+    // HNSW link count is read from the process environment at every open: fix it for the
+    // whole process (before any worker thread exists) so that small-index exactness is reachable.
+    if std::env::var("NERVUSDB_HNSW_M").is_err() {
+        unsafe { std::env::set_var("NERVUSDB_HNSW_M", "2") };
+    }
     let args: Vec<String> = std::env::args().collect();
     if args.len() < 2 {
         usage();
